@@ -38,3 +38,21 @@ package ast
 //@ func (a Atom) Hash()
 //@   pure
 //@   trusted
+
+// ---- C18: the only mutable package-level state of the library is the default timezone -----------------
+// It is read and written only while holding defaultTimezoneMu (write lock for writes), and every path releases it.
+
+//@ func SetDefaultTimezone(loc)
+//@   requires sync.held(&defaultTimezoneMu) == 0
+//@   guard write defaultTimezone: sync.held(&defaultTimezoneMu) == 2
+//@   ensures sync.held(&defaultTimezoneMu) == 0
+
+//@ func GetDefaultTimezone()
+//@   requires sync.held(&defaultTimezoneMu) == 0
+//@   guard read defaultTimezone: sync.held(&defaultTimezoneMu) >= 1
+//@   ensures sync.held(&defaultTimezoneMu) == 0
+
+//@ func SetTimezone(tz)
+//@   requires sync.held(&defaultTimezoneMu) == 0
+//@   guard write defaultTimezone: sync.held(&defaultTimezoneMu) == 2
+//@   ensures sync.held(&defaultTimezoneMu) == 0
